@@ -147,6 +147,66 @@ def lost_ack_cases(run):
     return out
 
 
+def died_worker_session(run):
+    """a library thread that died on its own does not stop the life cycle: channel 0 has a user-defined type the
+    default parser does not know, its first sample kills the stream thread (KeyError - on the unchanged library
+    too); stream_stop / disconnect / connect / stream_start must then give a NEW live stream thread that delivers
+    the samples of channel 1"""
+    from nxslib.nxscope import NxscopeHandler
+    from nxslib.proto.parse import Parser
+    refdev.install_fast_clock(0.01)
+    before = set(threading.enumerate())
+    chans = refdev.simple_chans(2, typ=7, vdim=1)
+    chans[0]["typ"] = 20                       # USER1
+    dev = refdev.RefDevice(chans, flags=3)
+    nx = NxscopeHandler(dev, Parser())
+    out = []
+    hook = threading.excepthook
+    threading.excepthook = lambda a: None      # the dying thread's traceback is expected
+    try:
+        def sample(ch, v):
+            return rc.wire(rc.ID_STREAM, bytes([0, ch]) + int(v).to_bytes(4, "little", signed=True))
+        fin, res = refdev.run_with_watchdog(nx.connect, 20)
+        if not fin or isinstance(res, BaseException):
+            return ["connect failed: %r" % (res,)]
+        nx.ch_enable([0, 1], True)
+        nx.stream_start()
+        dev.push(sample(0, 1))
+        t0 = time.time()
+        while nx._thrd.thread_is_alive() and time.time() - t0 < 2.0:
+            time.sleep(0.002)
+        died = not nx._thrd.thread_is_alive()
+        for call in (nx.stream_stop, nx.disconnect, nx.connect):
+            fin, res = refdev.run_with_watchdog(call, 20)
+            if not fin or isinstance(res, BaseException):
+                return ["%s after the stream thread died: %r" % (call.__name__, res if fin else "did not return")]
+        nx.ch_enable(1, True)
+        q = nx.stream_sub(1)
+        nx.stream_start()
+        time.sleep(0.01)
+        alive = any(t.name == "stream" and t.is_alive() for t in threading.enumerate() if t not in before)
+        for v in (5, 6, 7):
+            dev.push(sample(1, v))
+        got = []
+        t0 = time.time()
+        while len(got) < 3 and time.time() - t0 < 2.0:
+            try:
+                got += [s.data[0] for s in q.get(timeout=5)]
+            except Exception:  # noqa: BLE001
+                pass
+        run.count("died-worker-session", ("died-worker", died))
+        if not alive:
+            out.append("second session after the stream thread had died: stream_start started no stream thread")
+        elif got != [5, 6, 7]:
+            out.append("second session after the stream thread had died: subscriber of channel 1 got %r instead of [5, 6, 7]" % (got,))
+    finally:
+        threading.excepthook = hook
+        refdev.run_with_watchdog(nx.disconnect, 20)
+        nx._thrd.stop_set()
+        nx._comm._thrd.stop_set()
+    return out
+
+
 def main(run):
     run.regen()
     run.prove()
@@ -163,6 +223,10 @@ def main(run):
         if not run.concrete():
             for e, call, got in lost_ack_cases(run)[:1]:
                 run.violation(e, {"call": call, "implementation": got})
+        if not run.concrete():
+            for e in died_worker_session(run)[:1]:
+                run.violation(e, {"call": "connect,enable,stream_start,<sample of an unknown user type kills the stream thread>,"
+                                          "stream_stop,disconnect,connect,stream_start"})
     else:
         run.proof_ok = False
     return run.finish(rule=RULE, extra_cov={"exhaustive": True}, assumptions=[
